@@ -119,3 +119,37 @@ Example nonvacuous_oog_in_body_reverts :
   let r := evm_call Z greedy_body sample_after_mint sample_transfer reference_facts PFunToken KTop 1000000000000 50000 (bankMsgSend_call unibi 5) 0 in
   r_out r = OutOfGas /\ r_left r = 0 /\ r_st r = 0.
 Proof. vm_compute. repeat split; reflexivity. Qed.
+
+(** gas charged = gas consumed: a body whose work costs 1500 whatever it is offered *)
+Example sample_body_cost_deterministic :
+  body_cost_deterministic Z sample_body sample_after_mint.
+Proof.
+  intros m args st lim lim' s1 s2 u1 u2 [B1|[x [y [z [B1 _]]]]] [B2|[x' [y' [z' [B2 _]]]]];
+    unfold sample_body in *; destruct (can_mutate m); try discriminate;
+    inversion B1; inversion B2; subst; reflexivity.
+Qed.
+
+Example nonvacuous_gas_charged :
+  let r := call reference_facts PFunToken KTop 0 1000000 (bankMsgSend_call unibi 5) in
+  r_out r = Ok /\ 1000000 - r_left r = (30 * 288 + 2000) + 1500.
+Proof. vm_compute. split; reflexivity. Qed.
+
+(** one gas unit below the cost: out of gas, nothing charged beyond the forwarded gas, state as before *)
+Example nonvacuous_one_below_cost :
+  let r := call reference_facts PFunToken KTop 0 ((30 * 288 + 2000) + 1500 - 1) (bankMsgSend_call unibi 5) in
+  r_out r = OutOfGas /\ r_left r = 0 /\ r_st r = 0.
+Proof. vm_compute. repeat split; reflexivity. Qed.
+
+(** a local meter not capped by contract.Gas (seeded change: limit = contract.Gas + RequiredGas): inside
+    the window cost - RequiredGas <= G < cost the call succeeds, keeps its write, and only RequiredGas is
+    charged although the body consumed 1500 more: the gas clause is violated *)
+Lemma gas_charged_refuted_without_capped_meter :
+  exists gas,
+    let r := call (with_local_meter reference_facts false) PFunToken KTop 0 gas (bankMsgSend_call unibi 5) in
+    let r_ample := call (with_local_meter reference_facts false) PFunToken KTop 0 1000000 (bankMsgSend_call unibi 5) in
+    r_out r_ample = Ok /\ r_st r = 1 /\
+    ~ P_gas (r_out r) gas (r_left r) (Some (1000000 - r_left r_ample)).
+Proof.
+  exists ((30 * 288 + 2000) + 1000). intros r r_ample. split; [vm_compute; reflexivity|]. split; [vm_compute; reflexivity|].
+  intro H. specialize (H _ eq_refl). subst r r_ample. vm_compute in H. destruct (H eq_refl) as [A _]. discriminate.
+Qed.
